@@ -1096,6 +1096,7 @@ func main() {
 	nwracekeep := flag.Int("nwracekeep", -1, "wide race rounds to keep (-1: nracekeep/3)")
 	long := flag.String("long", "", "long-run traces (run-length encoded; empty: none)")
 	longchurn := flag.Int("longchurn", 65540, "calls of the long eviction run (0: none)")
+	longfill := flag.Int("longfill", 65538, "entries of the large never-evicting cache (0: none)")
 	longtouch := flag.Int("longtouch", 65540, "calls of the long recency run (0: none)")
 	nreconf := flag.Int("nreconf", -1, "reconfiguration histories (-1: hist/5)")
 	nshape := flag.Int("nshape", -1, "shape-class histories (-1: all of them if hist > 0)")
@@ -1191,6 +1192,9 @@ func main() {
 		lw := tr.Create(*long)
 		for _, sized := range []bool{*seed%2 == 0, *seed%2 != 0} {
 			longFill(lw, rng, sized, 258+rng.Intn(60))
+			if *longfill > 0 {
+				longFill(lw, rng, sized, *longfill+rng.Intn(4))
+			}
 			if *longchurn > 0 {
 				longChurn(lw, rng, sized, *longchurn+rng.Intn(5))
 			}
